@@ -125,8 +125,12 @@ theorem level_all (σ : Schema) : ∀ f, Level σ f := by
           obtain ⟨it, hit, rfl⟩ := List.mem_map.mp hl
           exact hchild it hit c hcl
         have hrec := ih t ss _ hflat
-        rw [hitems] at hrec ⊢
+        have hff : firstFail (items.map listChildren).flatten = none :=
+          firstFail_none _ (fun c hc => refOk_notFail (hflat c hc))
+        rw [hitems] at hrec hff ⊢
         simp only [resolveBatch]
+        rw [hff]
+        simp only
         rw [hrec]
         simp only [bind, Except.bind]
         rw [regroup_map_flatten, List.map_map, List.map_map]
